@@ -129,8 +129,21 @@ class Gen:
         lines: list[str] = []
         kind = rng.choice(["expr", "assign", "tuple_assign", "if_return", "if_elif_else_return", "if_fallthrough", "branch_assign",
                            "branch_reassign_live", "post_if_statements", "nested_if", "outside",
-                           "random_block", "random_block", "random_block", "random_block", "local_import"])
+                           "random_block", "random_block", "random_block", "random_block", "local_import", "call_compound_args"])
+        own = [(n, ar) for n, ar in fns if n.startswith("f") and n[1:].isdigit() and ar >= 2]
+        if kind == "call_compound_args" and not own:
+            kind = "expr"
         self.features.add(f"shape:{kind}")
+        if kind == "call_compound_args":
+            # a call to an earlier function of this module (parameters x, y, z) in which every argument is a compound
+            # expression and the caller's names sit at other positions than the callee's parameters of the same name
+            callee, ar = rng.choice(own)
+            rot = (params[1:] + params[:1]) if len(params) > 1 else params
+            args = [f"({rot[i % len(rot)]} {rng.choice(['+', '*', '-'])} {self.const()})" for i in range(ar)]
+            self.features.add("nested_call")
+            self.features.add("nested_call_with_compound_arguments_at_other_positions")
+            text = f"def {name}({', '.join(params)}):\n    return {callee}({', '.join(args)}) + {self.expr(list(params), 1, None)}\n"
+            return text, set(self.features)
         if kind == "random_block":
             self._n_local = 0
             lines = self.block(list(params), rng.randint(1, 3), True, fns)
